@@ -21,7 +21,7 @@ AtTokens == pc \in {"tokenized", "tok_done", "tags_done", "tree_done"}
 (***************************************************************************)
 \* a process run of the command on a readable source with well-formed options ends normally too: exit status 0 (a panic
 \* ends the process with 101, an abort with a signal) and a standard output that is valid UTF-8
-C01_Cli == pc = "cli_done" => (res.exit = 0 /\ res.stdout_utf8)
+C01_Cli == (pc = "cli_done" /\ res.odd = "") => (res.exit = 0 /\ res.stdout_utf8)
 C01 == pc # "crashed" /\ pc # "failed" /\ C01_Cli
 
 (***************************************************************************)
@@ -168,7 +168,7 @@ CliFaithful ==
   pc = "cli_done" =>
      LET r == res
          me == hist[Len(hist)]
-     IN (r.cur_given /\ CfgOfOpts(r, cfg)) =>
+     IN (r.cur_given /\ r.odd = "" /\ CfgOfOpts(r, cfg)) =>
           /\ r.exit = 0
           /\ r.stdout_utf8
           /\ (r.output = "file") => r.has_outfile
@@ -178,6 +178,13 @@ CliFaithful ==
                 (h.op = LibOpOf(r) /\ h.src = me.src /\ h.cfg = cfg) => Payload(r) = h.out
 
 C20 == CliFaithful
+
+\* the same through the command: a process run in clean mode on a source without a ready element writes the source back
+C04_Cli ==
+  (pc = "cli_done" /\ res.odd = "" /\ res.mode = "clean" /\ res.cur_given /\ CfgOfOpts(res, cfg)) =>
+     LET me == hist[Len(hist)]
+         d == Doc(me.src, cfg)
+     IN (~d.lenient /\ ReadyElems(d) = {}) => (res.exit = 0 /\ Payload(res) = me.src)
 C06 == C06_Eval /\ CliFaithful /\ (AtCleanReturn => LET dl == DL IN Decisions_On(LastSrc, dl, out))
 
 (***************************************************************************)
@@ -314,6 +321,15 @@ C16 ==
                     /\ Len(items) = Len(h.items)
                     /\ \A k \in 1..Len(items) : items[k].block = h.items[k].block /\ items[k].status = h.items[k].status
 
+\* sources with carriage returns: the property does not say whether a lone CR ends a "source line"; what holds under every
+\* reading is that an item shows as many numbered rows as its line range has lines, numbered consecutively from the first
+C16_CR ==
+  (AtListReturn /\ IsJsonOp(op) /\ \E i \in 1..Len(file) : file[i] = CR) =>
+     LET DD == D IN
+     (~DD.lenient /\ C16Space(file, DD) /\ res.json_ok /\ items # <<>>) =>
+        LET w == ObservedWidth(items[1].block) IN
+        w >= 3 /\ \A k \in 1..Len(items) : RowsConsistent(items[k].block, items[k].lr, w)
+
 C17 ==
   /\ Demanded({"list_all", "list_all_json"}, ~D.lenient /\ C15Space(file, D))
   /\ (AtListReturn /\ op = "list_all_json") =>
@@ -346,7 +362,7 @@ C18 ==
 \* the same through the command line: a process run whose options denote the respelled configuration, on the respelled
 \* source, yields the respelled result of the earlier (library or process) run under the other spelling
 C18_Cli ==
-  (pc = "cli_done" /\ res.cur_given /\ CfgOfOpts(res, cfg)) =>
+  (pc = "cli_done" /\ res.cur_given /\ res.odd = "" /\ CfgOfOpts(res, cfg)) =>
      LET me == hist[Len(hist)] IN
      \A i \in 1..(Len(hist) - 1) :
         LET h == hist[i] IN
@@ -433,6 +449,6 @@ App_C18 == pc = "returned" /\ op \in {"clean", "list_json"} /\
               /\ h.out # h.src
 App_C19 == C19_CompSpace /\ Len(Commits) >= 2 /\ Commits[1].src # out
            /\ \E i \in 1..Len(hist) : hist[i].op = "clean" /\ hist[i].src = Commits[1].src /\ hist[i].cfg = cfg
-App_C20 == pc = "cli_done" /\ res.cur_given /\ CfgOfOpts(res, cfg)
+App_C20 == pc = "cli_done" /\ res.cur_given /\ res.odd = "" /\ CfgOfOpts(res, cfg)
            /\ \E i \in 1..(Len(hist) - 1) : hist[i].op = LibOpOf(res) /\ hist[i].src = hist[Len(hist)].src /\ hist[i].cfg = cfg
 =============================================================================
